@@ -85,9 +85,12 @@ Print Assumptions C15_cache_log.
     copy of every statement linking two targets; and the local feature pass
     computes the same from that restriction as from the whole graph.
     Equality of the final SHAPES needs two more facts that are not proved
-    here: permutation invariance of the pipeline (property C09) and, with
-    inverse paths, absence of statements linking two targets -- the second
-    copy is counted ([C15_inverse_double_refuted], finding C15-F2). *)
+    here: permutation invariance of the pipeline (property C09, Props/C09.v:
+    [C09_tracker_permutation], [C09_profile_permutation_invariant],
+    [C09_keys_permutation_invariant] -- without instance cap, up to the choice
+    among tied candidates) and, with inverse paths, absence of statements
+    linking two targets -- the second copy is counted
+    ([C15_inverse_double_refuted], finding C15-F2). *)
 Theorem C15_equals_local_partial : forall c G O m I,
   ord_ok O -> dom c G -> mode_ok c G m ->
   let r := run c m G O in
@@ -100,6 +103,15 @@ Theorem C15_equals_local_partial : forall c G O m I,
   annotate_all (c_tau c) (c_inverse c) (filter (rel (c_inverse c) I) (local_graph G)) I.
 Proof. exact C15d. Qed.
 Print Assumptions C15_equals_local_partial.
+
+(** Where the model says that pass 1 stops reading after [n] triples
+    ([instances_cap] reached for every target class), the tracker model of the
+    pipeline computes the same instances from those [n] triples as from the
+    whole stream. *)
+Theorem C15_pass1_reads_like_tracker : forall tau m cap g n,
+  consumption tau m cap g = CStop n -> track tau m cap g = track tau m cap (firstn n g).
+Proof. exact consumption_stop_track. Qed.
+Print Assumptions C15_pass1_reads_like_tracker.
 
 (** The set oracle the harness uses (ranking observed at the real set->list
     site) is an instance of the oracles the theorems quantify over. *)
